@@ -288,7 +288,7 @@ def coq_str(s):
     if not re.fullmatch(r"[ -!#-~]*", s):
         raise TranslateError(f"name {s!r} is not printable ASCII without quotes")
     if s not in STR_CONSTS:
-        base = "s_" + (re.sub(r"[^A-Za-z0-9]+", "_", s).strip("_") or "empty")
+        base = "W_s_" + (re.sub(r"[^A-Za-z0-9]+", "_", s).strip("_") or "empty")
         name, i = base, 1
         while name in STR_CONSTS.values():
             i += 1
@@ -367,7 +367,7 @@ def build_messages():
                 if ty in SCALARS or ty in enum_types:
                     raise TranslateError(f"{where}.{fn}: non-message oneof variant is not modelled")
                 variants.append((fn, ty, spec_of(ty, stack + (mn,))))
-            specs[mn] = "MFlatOneof (mlist [" + "; ".join(ty for _fn, ty, _s in variants) + "])"
+            specs[mn] = "WMFlatOneof (w_mlist [" + "; ".join("W_" + ty for _fn, ty, _s in variants) + "])"
             table[mn] = [("(flatten, untagged)", " | ".join(ty for _fn, ty, _s in variants))]
             return specs[mn]
         for f in m["fields"]:
@@ -393,7 +393,7 @@ def build_messages():
                     kind = None
             elif ty in msgs and not rep:
                 spec_of(ty, stack + (mn,))
-                kind = {None: f"KOptMsg {ty}"}.get(w)
+                kind = {None: f"KOptMsg W_{ty}"}.get(w)
             else:
                 kind = None
             if kind is None:
@@ -402,7 +402,7 @@ def build_messages():
         names = [r[0] for r in rows]
         if len(set(names)) != len(names):
             raise TranslateError(f"message {mn}: two fields share a JSON name")
-        specs[mn] = "MStruct (flist [" + "; ".join(f"({coq_str(j)}, {k})" for j, k, _n, _t in rows) + "])"
+        specs[mn] = "WMStruct (w_flist [" + "; ".join(f"({coq_str(j)}, {k})" for j, k, _n, _t in rows) + "])"
         table[mn] = [(n, f"{t} -> \"{j}\" {k}") for j, k, n, t in rows]
         return specs[mn]
 
@@ -595,19 +595,19 @@ def to_vec_layout(rel, struct, widths):
         if how in ("be", "le"):
             if ty != "u32":
                 raise TranslateError(f"{rel}: {struct}.{field}: to_{how}_bytes on type {ty} is not modelled")
-            return (field, "LBE32" if how == "be" else "LLE32")
+            return (field, "WLBE32" if how == "be" else "WLLE32")
         if how == "to_vec":
             if ty not in widths:
                 raise TranslateError(f"{rel}: {struct}.{field}: .to_vec() on type {ty} is not modelled")
-            return (field, f"LFixed {widths[ty]}")
+            return (field, f"WLFixed {widths[ty]}")
         if how == "ref":
             if ty != "Vec<u8>":
                 raise TranslateError(f"{rel}: {struct}.{field}: extend(&..) on type {ty} is not modelled")
-            return (field, "LVar")
+            return (field, "WLVar")
         if how == "as_bytes":
             if ty != "String":
                 raise TranslateError(f"{rel}: {struct}.{field}: .as_bytes() on type {ty} is not modelled")
-            return (field, "LVar")
+            return (field, "WLVar")
         raise TranslateError("internal")
 
     first = stmts[0]
@@ -696,7 +696,7 @@ def api_error_spec(rel):
         if k is None:
             raise TranslateError(f"{rel}: ApiError.{name}: type {ty} is not modelled")
         rows.append((jname, k))
-    return "MStruct (flist [" + "; ".join(f"({coq_str(j)}, {k})" for j, k in rows) + "])"
+    return "WMStruct (w_flist [" + "; ".join(f"({coq_str(j)}, {k})" for j, k in rows) + "])"
 
 
 def api_response_order():
@@ -712,12 +712,12 @@ def api_response_order():
     order = []
     for v in [x.strip() for x in m.group(2).split(",") if x.strip()]:
         if norm(v) == "Response(T)":
-            order.append("AVResponse")
+            order.append("WAVResponse")
         elif norm(v) == "Error(ApiError)":
-            order.append("AVError")
+            order.append("WAVError")
         else:
             raise TranslateError(f"{rel}: ApiResponse variant {v!r} is not modelled")
-    if sorted(order) != ["AVError", "AVResponse"]:
+    if sorted(order) != ["WAVError", "WAVResponse"]:
         raise TranslateError(f"{rel}: ApiResponse<T> does not have exactly the variants Response(T), Error(ApiError)")
     return order
 
@@ -940,51 +940,51 @@ def gen():
     for name, term, rows in msgs:
         for a, b in rows:
             L.append(f"(*   {name}.{a}: {b} *)")
-        L.append(f"Definition {name} : msg := {term}.")
-    L.append("Definition MESSAGES : list (str * msg) := [" + "; ".join(f"({coq_str(n)}, {n})" for n, _t, _r in msgs) + "].")
+        L.append(f"Definition W_{name} : w_msg := {term}.")
+    L.append("Definition W_MESSAGES : list (w_str * w_msg) := [" + "; ".join(f"({coq_str(n)}, W_{n})" for n, _t, _r in msgs) + "].")
     L.append("")
     L.append("(* the error object: teos/src/api/http.rs (tower, serialises) and watchtower-plugin/src/net/http.rs (client, parses) *)")
-    L.append(f"Definition TowerApiError : msg := {api_error_spec('teos/src/api/http.rs')}.")
-    L.append(f"Definition ClientApiError : msg := {api_error_spec('watchtower-plugin/src/net/http.rs')}.")
+    L.append(f"Definition W_TowerApiError : w_msg := {api_error_spec('teos/src/api/http.rs')}.")
+    L.append(f"Definition W_ClientApiError : w_msg := {api_error_spec('watchtower-plugin/src/net/http.rs')}.")
     L.append("(* #[serde(untagged)] enum ApiResponse<T>: variants in the order serde tries them *)")
-    L.append("Definition API_RESPONSE_ORDER : list api_variant := [" + "; ".join(api_response_order()) + "].")
+    L.append("Definition W_API_RESPONSE_ORDER : list w_api_variant := [" + "; ".join(api_response_order()) + "].")
     L.append("")
     variants, from_i32, default, from_str, display, proto = status_tables(enum_types)
     L.append("(* teos-common/src/appointment.rs: AppointmentStatus *)")
-    L.append("Definition STATUS : status_table := {|")
-    L.append("  st_variants := [" + "; ".join(f"({coq_str(v)}, {translate.zlit(n)})" for v, n in variants) + "];")
-    L.append("  st_from_i32 := [" + "; ".join(f"({translate.zlit(n)}, {coq_str(v)})" for n, v in from_i32) + "];")
-    L.append(f"  st_from_i32_default := {coq_str(default)};")
-    L.append("  st_from_str := [" + "; ".join(f"({coq_str(s)}, {coq_str(v)})" for s, v in from_str) + "];")
-    L.append("  st_display := [" + "; ".join(f"({coq_str(v)}, {coq_str(s)})" for v, s in display) + "] |}.")
+    L.append("Definition W_STATUS : w_status_table := {|")
+    L.append("  w_st_variants := [" + "; ".join(f"({coq_str(v)}, {translate.zlit(n)})" for v, n in variants) + "];")
+    L.append("  w_st_from_i32 := [" + "; ".join(f"({translate.zlit(n)}, {coq_str(v)})" for n, v in from_i32) + "];")
+    L.append(f"  w_st_from_i32_default := {coq_str(default)};")
+    L.append("  w_st_from_str := [" + "; ".join(f"({coq_str(s)}, {coq_str(v)})" for s, v in from_str) + "];")
+    L.append("  w_st_display := [" + "; ".join(f"({coq_str(v)}, {coq_str(s)})" for v, s in display) + "] |}.")
     L.append("(* the proto enum GetAppointmentResponse.AppointmentStatus (names in CamelCase, as prost generates them) *)")
-    L.append("Definition STATUS_PROTO : list (str * Z) := [" + "; ".join(f"({coq_str(v)}, {translate.zlit(n)})" for v, n in proto) + "].")
+    L.append("Definition W_STATUS_PROTO : list (w_str * Z) := [" + "; ".join(f"({coq_str(v)}, {translate.zlit(n)})" for v, n in proto) + "].")
     L.append("")
     L.append("(* the byte strings that get signed: field order and widths of the three to_vec functions *)")
     for cname, what, items in layouts():
         L.append(f"(* {what} *)")
-        L.append(f"Definition {cname} : layout := [" + "; ".join(f"({coq_str(f)}, {it})" for f, it in items) + "].")
+        L.append(f"Definition W_{cname} : w_layout := [" + "; ".join(f"({coq_str(f)}, {it})" for f, it in items) + "].")
     L.append("")
     sm = signed_messages()
     L.append("(* the messages signed by the client (watchtower-plugin/src/main.rs) and checked by the tower (teos/src/watcher.rs) *)")
     for k in ("GET_APPOINTMENT_PREFIX_CLIENT", "GET_APPOINTMENT_PREFIX_TOWER", "GET_SUBSCRIPTION_INFO_MSG_CLIENT", "GET_SUBSCRIPTION_INFO_MSG_TOWER"):
-        L.append(f"Definition {k} : str := {coq_str(sm[k])}.")
+        L.append(f"Definition W_{k} : w_str := {coq_str(sm[k])}.")
     L.append("")
     eps = endpoints()
     wrapped = client_decoding({h: resp for h, _p, _rq, resp, _c in eps})
     L.append("(* router + handlers of teos/src/api/http.rs, PublicTowerServices, and how the client decodes each reply *)")
     for handler, path, req, resp, cap in eps:
-        L.append(f"Definition EP_{handler} : endpoint_spec := {{| ep_path := {coq_str('/' + path)}; ep_req := {req}; ep_resp := {resp}; "
-                 f"ep_cap := {translate.zlit(cap)}; ep_client_wrapped := {'true' if wrapped[handler] else 'false'} |}}.")
-    L.append("Definition ENDPOINTS : list endpoint_spec := [" + "; ".join(f"EP_{h}" for h, *_ in eps) + "].")
+        L.append(f"Definition W_EP_{handler} : w_endpoint_spec := {{| w_ep_path := {coq_str('/' + path)}; w_ep_req := W_{req}; w_ep_resp := W_{resp}; "
+                 f"w_ep_cap := {translate.zlit(cap)}; w_ep_client_wrapped := {'true' if wrapped[handler] else 'false'} |}}.")
+    L.append("Definition W_ENDPOINTS : list w_endpoint_spec := [" + "; ".join(f"W_EP_{h}" for h, *_ in eps) + "].")
     L.append("")
     arms, dflt = match_status()
     L.append("(* match_status: tonic code -> (HTTP status, error_code) *)")
-    L.append("Definition MATCH_STATUS : list (Z * (Z * Z)) := [" + "; ".join(f"({translate.zlit(c)}, ({translate.zlit(h)}, {translate.zlit(e)}))" for c, h, e in arms) + "].")
-    L.append(f"Definition MATCH_STATUS_DEFAULT : Z * Z := ({translate.zlit(dflt[0])}, {translate.zlit(dflt[1])}).")
+    L.append("Definition W_MATCH_STATUS : list (Z * (Z * Z)) := [" + "; ".join(f"({translate.zlit(c)}, ({translate.zlit(h)}, {translate.zlit(e)}))" for c, h, e in arms) + "].")
+    L.append(f"Definition W_MATCH_STATUS_DEFAULT : Z * Z := ({translate.zlit(dflt[0])}, {translate.zlit(dflt[1])}).")
     L.append("")
     head.append("(* every name and literal used below, as bytes *)")
     for lit, name in STR_CONSTS.items():
-        head.append(f'Definition {name} : str := Eval vm_compute in s2b "{lit}".')
+        head.append(f'Definition {name} : w_str := Eval vm_compute in w_s2b "{lit}".')
     head.append("")
     return "\n".join(head + L) + "\n"
